@@ -6,6 +6,7 @@ plain semantics (Abs is explicit there).
 
 Returned problems are tuples (kind, ...).  'inconclusive' is never a violation.
 """
+import ast
 import csv
 import re
 
@@ -15,26 +16,81 @@ mp.mp.dps = 30
 TOL = mp.mpf(10) ** -15
 
 
+BIG = 23000          # natural-log magnitude cap (~1e10000): beyond it an intermediate counts as non-finite
+
+
+def _chk(t):
+    """Guard against towers (exp of exp ...): mpmath would try to build numbers with astronomically many digits."""
+    try:
+        if t > BIG:
+            raise OverflowError('magnitude cap')
+    except TypeError:
+        pass
+
+
+def _lnabs(a):
+    if isinstance(a, mp.mpc):
+        a = abs(a)
+    a = abs(a)
+    if a == 0:
+        return mp.mpf('-inf')
+    return mp.log(a)
+
+
+def _spow(a, b):
+    """plain power (sympy str semantics) with magnitude guard"""
+    if not isinstance(b, mp.mpc) and a != 0:
+        _chk(b * _lnabs(a))
+    return mp.power(a, b)
+
+
 def _pow(a, b):
-    return mp.power(abs(a), b)
+    """ESR pow: |a|**b"""
+    return _spow(abs(a), b)
 
 
-NS = {'pow': _pow, 'Abs': lambda a: abs(a), 'exp': mp.exp, 'log': lambda a: mp.log(abs(a)),
+def _exp(a):
+    if not isinstance(a, mp.mpc):
+        _chk(a)
+    else:
+        _chk(a.real)
+    return mp.exp(a)
+
+
+def _tenexp(a):
+    return _spow(mp.mpf(10), a)
+
+
+NS = {'pow': _pow, 'Abs': lambda a: abs(a), 'exp': _exp, 'log': lambda a: mp.log(abs(a)),
       'sqrt': lambda a: mp.sqrt(abs(a)), 'sin': mp.sin, 'cos': mp.cos, 'sign': mp.sign,
       'inv': lambda a: 1 / a, 'square': lambda a: a * a, 'cube': lambda a: a * a * a,
       'sqrt_abs': lambda a: mp.sqrt(abs(a)), 'log_abs': lambda a: mp.log(abs(a)),
-      'log10_abs': lambda a: mp.log(abs(a), 10), 'tenexp': lambda a: mp.power(10, a),
-      'nan': mp.nan, 'zoo': mp.inf, 'oo': mp.inf, 'E': mp.e, 'pi': mp.pi, 'I': mp.mpc(0, 1)}
+      'log10_abs': lambda a: mp.log(abs(a), 10), 'tenexp': _tenexp,
+      'nan': mp.nan, 'zoo': mp.inf, 'oo': mp.inf, 'E': mp.e, 'pi': mp.pi, 'I': mp.mpc(0, 1), '_spow': _spow}
 NS_MAP = dict(NS)
 NS_MAP.update({'log': lambda a, b=None: mp.log(a) if b is None else mp.log(a, b), 'sqrt': mp.sqrt})
-INT = re.compile(r'(?<![\w.])(\d+)(?![\w.])')
-FLOAT = re.compile(r'(?<![\w.])(\d+\.\d*(?:[eE][-+]?\d+)?)(?![\w.])')
 PARAM = re.compile(r'(?<![A-Za-z0-9_])a(\d+)(?![0-9A-Za-z_])')
 
 
-def _prep(s):
-    s = FLOAT.sub(lambda m: "mpf('%s')" % m.group(1), s)
-    return INT.sub(lambda m: 'mpf(%s)' % m.group(1), s)
+class _Fix(ast.NodeTransformer):
+    """numbers -> exact mpf, a**b -> _spow(a, b)"""
+
+    def visit_BinOp(self, node):
+        self.generic_visit(node)
+        if isinstance(node.op, ast.Pow):
+            return ast.copy_location(ast.Call(ast.Name('_spow', ast.Load()), [node.left, node.right], []), node)
+        return node
+
+    def visit_Constant(self, node):
+        if isinstance(node.value, (int, float)) and not isinstance(node.value, bool):
+            return ast.copy_location(ast.Call(ast.Name('mpf', ast.Load()), [ast.Constant(repr(node.value))], []), node)
+        return node
+
+
+def _compile(s):
+    tree = ast.parse(s.strip(), '<f>', 'eval')
+    tree = ast.fix_missing_locations(_Fix().visit(tree))
+    return compile(tree, '<f>', 'eval')
 
 
 _code_cache = {}
@@ -47,8 +103,8 @@ def ev(s, env, ns=NS):
     code = _code_cache.get(s)
     if code is None:
         try:
-            code = compile(_prep(s), '<f>', 'eval')
-        except SyntaxError:
+            code = _compile(s)
+        except (SyntaxError, ValueError, RecursionError):
             code = False
         if len(_code_cache) > 200000:
             _code_cache.clear()
@@ -136,6 +192,40 @@ def apply_chain(chain, theta):
             new[k] = val
         th = new
     return th
+
+
+def _both(f, u, chain, th, x):
+    pt = apply_chain(chain, th)
+    if pt is None:
+        return None
+    lhs = ev(f, dict(pt, x=x))
+    rhs = ev(u, dict(th, x=x))
+    if lhs is None or rhs is None or lhs == 'syntax' or rhs == 'syntax':
+        return None
+    return lhs, rhs
+
+
+def _recheck(f, u, chain, th, x):
+    """'equal' | 'noise' | 'differs' for one evaluation point.  The point is re-evaluated with 80 and 200
+    digits; if either side is not stable between the two precisions the evaluation is ill-conditioned there
+    (towers, sin of a huge argument, cancellation) and the point says nothing."""
+    old = mp.mp.dps
+    try:
+        mp.mp.dps = 80
+        v1 = _both(f, u, chain, th, x)
+        mp.mp.dps = 200
+        v2 = _both(f, u, chain, th, x)
+        if v1 is None or v2 is None:
+            return 'noise'
+        stab = mp.mpf(10) ** -40
+        for a, b in zip(v1, v2):
+            if abs(a - b) > stab * (1 + abs(a) + abs(b)):
+                return 'noise'
+        if abs(v2[0] - v2[1]) <= TOL * (1 + abs(v2[0]) + abs(v2[1])):
+            return 'equal'
+        return 'differs'
+    finally:
+        mp.mp.dps = old
 
 
 def nparams(s):
@@ -239,8 +329,18 @@ def check_library(d, compl, rng, npts=6, maxdraw=60, stats=None):
             if abs(lhs - rhs) <= TOL * (1 + abs(lhs) + abs(rhs)):
                 good += 1
             else:
-                bad = (dict((k, float(v)) for k, v in th.items()), float(x), mp.nstr(lhs, 12), mp.nstr(rhs, 12))
-                break
+                # ill-conditioned towers (exp of exp ...) amplify the 1e-30 rounding of the map: re-evaluate the
+                # same point with more digits; a difference that melts away with precision is numerical noise
+                verdict = _recheck(f, u, chain, th, x)
+                if verdict == 'equal':
+                    good += 1
+                    stats['rechecked_equal'] = stats.get('rechecked_equal', 0) + 1
+                elif verdict == 'noise':
+                    stats['rechecked_noise'] = stats.get('rechecked_noise', 0) + 1
+                    continue
+                else:
+                    bad = (dict((k, float(v)) for k, v in th.items()), float(x), mp.nstr(lhs, 12), mp.nstr(rhs, 12))
+                    break
             if good >= npts:
                 break
         if bad is not None:
